@@ -677,7 +677,8 @@ int cp_rsa_enc(uint8_t *out, size_t *out_len, const uint8_t *in, size_t in_len,
 
 	size = bn_size_bin(pub->crt->n);
 
-	if (pub == NULL || in_len <= 0 || in_len > (size - RSA_PAD_LEN)) {
+	if (pub == NULL || in_len <= 0 || size < RSA_PAD_LEN ||
+			in_len > (size - RSA_PAD_LEN)) {
 		return RLC_ERR;
 	}
 
